@@ -105,4 +105,28 @@ inductive CBody where
   | other (n : Nat)
 deriving DecidableEq, Repr
 
+/-- Normalised body of an `XToken` member (XToken.hpp inline members, XToken.cpp). -/
+inductive TExpr where
+  | boolOfStr                        -- `XObject::boolean(*m_stringValue)`
+  | boolOfNum                        -- `XObject::boolean(m_numberValue)`
+  | ite (a b : TExpr)                -- `m_isString == true ? a : b`
+  | numField                         -- `m_numberValue`
+  | strField                         -- `*m_stringValue`
+  | charsOfStr                       -- `string(*m_stringValue, formatterListener, function)`
+  | appendStr                        -- `theBuffer.append(*m_stringValue)`
+  | setFields (isString : Bool)      -- `m_stringValue = &theString; m_numberValue = theNumber; m_isString = …`
+  | other (n : Nat)
+deriving DecidableEq, Repr
+
+inductive TMethod where
+  | booleanInline | numInline                    -- `boolean() const`, `num() const` (what XPath::literal/numberlit call)
+  | booleanV | numV | strV | str0                -- virtual `boolean(ec)`, `num(ec)`, `str(ec)`, `str()`
+  | strCharsV | strChars                         -- `str(ec, listener, fn)`, `str(listener, fn)`
+  | strBufV | strBuf                             -- `str(ec, buffer)`, `str(buffer)`
+  | setString | setNumber                        -- `set(string, double)`, `set(double, string)`
+deriving DecidableEq, Repr
+
+def TMethod.all : List TMethod :=
+  [.booleanInline, .numInline, .booleanV, .numV, .strV, .str0, .strCharsV, .strChars, .strBufV, .strBuf, .setString, .setNumber]
+
 end XalanModel.C11
